@@ -20,15 +20,17 @@ Tr    == Traces[tid]
 
 CKey(c) == c[1] \o "." \o ToString(c[2])
 
-ProjOK(e) ==
-  /\ \A f \in Filters : /\ minSend'[f] = e.ms[f]
-                        /\ prevId'[f]  = e.pi[f]
-                        /\ ndeliv'[f]  = e.nd[f]
-                        /\ \A o \in 1..NOut[f] : Len(pullq'[f][o]) = e.lq[f][o]
-  /\ \A c \in Conns : /\ Len(pubq'[c]) = e.pq[CKey(c)]
-                      /\ Len(subq'[c]) = e.sq[CKey(c)]
-                      /\ Len(reqq'[c]) = e.rq[CKey(c)]
-                      /\ linkUp'[c] = e.up[CKey(c)]
+\* the logged projection describes the real objects at the end of the poll()-to-poll() block, i.e. after the internal
+\* actions that follow the labelled action have run: it is compared when no internal action is enabled any more
+ProjNow(e) ==
+  /\ \A f \in Filters : /\ minSend[f] = e.ms[f]
+                        /\ prevId[f]  = e.pi[f]
+                        /\ ndeliv[f]  = e.nd[f]
+                        /\ \A o \in 1..NOut[f] : Len(pullq[f][o]) = e.lq[f][o]
+  /\ \A c \in Conns : /\ Len(pubq[c]) = e.pq[CKey(c)]
+                      /\ Len(subq[c]) = e.sq[CKey(c)]
+                      /\ Len(reqq[c]) = e.rq[CKey(c)]
+                      /\ linkUp[c] = e.up[CKey(c)]
 
 SameLabel(a, e) == /\ a[1] = e.l[1] /\ a[2] = e.l[2]
                    /\ (a[1] \in {"step", "timeout"} \/ a[3] = e.l[3])
@@ -41,12 +43,14 @@ TNext == /\ Next
             \/ /\ lbl'[1] # "int"
                /\ l <= Len(Tr)
                /\ SameLabel(lbl', Tr[l])
-               /\ ProjOK(Tr[l])
+               /\ IF l = 1 THEN TRUE ELSE ProjNow(Tr[l - 1])   \* the previous block ended in the logged state
                /\ l' = l + 1
 
 TSpec == TInit /\ [][TNext]_tvars
 
 \* evaluated on every new state: report progress / acceptance, stop exploring an accepted trace
 TConstraint == /\ PrintT(<<"AT", tid, l - 1>>)
-               /\ IF l = Len(Tr) + 1 THEN PrintT(<<"ACC", tid>>) /\ FALSE ELSE TRUE
+               /\ IF l = Len(Tr) + 1 /\ ~GInt
+                  THEN (ProjNow(Tr[Len(Tr)]) => PrintT(<<"ACC", tid>>)) /\ FALSE
+                  ELSE TRUE
 =============================================================================
